@@ -1,21 +1,22 @@
 #!/bin/bash
-# verify_seeded.sh <ID>: for every /tmp/seed/out/<ID>/m*/ confirm (in the scratch worktree /tmp/seed/<ID>):
+# verify_seeded.sh <ID>: for every $SEEDROOT/out/<ID>/m*/ confirm (in the scratch worktree $SEEDROOT/<ID>):
 #  suite passes with the patch and no demo; demo fails with the patch; demo passes without.
 export GOFLAGS=-mod=mod GOPROXY=off GOSUMDB=off GOTOOLCHAIN=local; unset GOWORK
-ID=$1; W=/tmp/seed/$ID; OUT=/tmp/seed/out/$ID
+R=${SEEDROOT:-/tmp/seed}; ID=$1; W=$R/$ID; OUT=$R/out/$ID
 for M in $OUT/m*; do
   [ -f $M/patch.diff ] || continue
   git -C $W checkout -q -- . && git -C $W clean -fdq
   pkg=$(python3 -c "import json;print(json.load(open('$M/meta.json')).get('demo_pkg_dir',''))")
   res="$ID/$(basename $M) pkg=$pkg"
   if ! git -C $W apply $M/patch.diff 2>/dev/null; then echo "$res APPLY-FAIL"; continue; fi
-  if (cd $W && go build ./... && go test -vet=off -count=1 ./... ) >/tmp/seed/out/$ID/$(basename $M).suite.log 2>&1; then s1=suite-pass; else s1=SUITE-FAIL; fi
+  if (cd $W && go build ./... && go test -vet=off -count=1 ./... ) >$OUT/$(basename $M).suite.log 2>&1; then s1=suite-pass; else s1=SUITE-FAIL; fi
   demo=$(ls $M/*_test.go 2>/dev/null | head -1)
   if [ -z "$demo" ] || [ -z "$pkg" ]; then echo "$res $s1 NO-DEMO-TEST"; continue; fi
+  race=""; grep -q -- "-race" $M/meta.json && race="-race"
   cp $demo $W/$pkg/zz_seeded_demo_test.go
-  if (cd $W && go test -vet=off -count=1 -run TestSeeded ./$pkg/ ) >/tmp/seed/out/$ID/$(basename $M).demo_mut.log 2>&1; then s2=DEMO-PASSES-WITH-MUTATION; else s2=demo-fails-with-mutation; fi
+  if (cd $W && go test $race -vet=off -count=1 -run TestSeeded ./$pkg/ ) >$OUT/$(basename $M).demo_mut.log 2>&1; then s2=DEMO-PASSES-WITH-MUTATION; else s2=demo-fails-with-mutation; fi
   git -C $W checkout -q -- .
-  if (cd $W && go test -vet=off -count=1 -run TestSeeded ./$pkg/ ) >/tmp/seed/out/$ID/$(basename $M).demo_clean.log 2>&1; then s3=demo-passes-clean; else s3=DEMO-FAILS-CLEAN; fi
+  if (cd $W && go test $race -vet=off -count=1 -run TestSeeded ./$pkg/ ) >$OUT/$(basename $M).demo_clean.log 2>&1; then s3=demo-passes-clean; else s3=DEMO-FAILS-CLEAN; fi
   rm -f $W/$pkg/zz_seeded_demo_test.go
   echo "$res $s1 $s2 $s3"
 done
